@@ -1,11 +1,11 @@
 \* EXPECTED VIOLATION NoLeak: the code as it is, cancellation while a goroutine is at a send that does not watch the context
 CONSTANTS HA = 2 HB = 0 ForkAt = 0 Start = 0 MaxIter = 3 WithCancel = TRUE
   Peers = {"honest", "corrupt"}
-  Verify = TRUE Retry = TRUE CheckedStore = TRUE CtxAwareSends = FALSE
+  Verify = TRUE Retry = TRUE CheckedStore = TRUE CtxAwareSends = FALSE FieldsChecked = FALSE
   ClassOf <- MCIdentity EmptyA <- MCEmptyMix EmptyB <- MCNoEmpty
 INIT Init
 NEXT Next
 VIEW view
-INVARIANTS TypeOK StoredIsChain OnlyVerified EmittedVerified PrefixOfA NoSkip NoLeak ExitOnlyAfterCancel
+INVARIANTS TypeOK StoredIsChain OnlyVerified EmittedVerified PrefixOfA NoSkip NoLeak ExitOnlyAfterCancel NoCrash
 PROPERTIES StoreExtends
 CHECK_DEADLOCK FALSE
